@@ -1,9 +1,42 @@
 (** C12: the invariant of the certificate cache and its preservation by every operation, for
     all histories (DESIGN appendix A.2). *)
-From CM Require Import Lib.Str Cache.Model Cache.AMapFacts.
+From CM Require Import Lib.Str Gen.Consts Cache.Model Cache.AMapFacts.
 From Coq Require Import Arith.
 Open Scope nat_scope.
 Arguments count_str : simpl never.
+
+(** ---- the comparisons taken from the code (Gen.Consts) are the ones the proofs are about: an
+    edit of an operator / literal in cache.go changes the model and breaks these ---- *)
+Lemma index_list_empty_eq kl : index_list_empty kl = is_nil kl.
+Proof. destruct kl; reflexivity. Qed.
+Lemma at_capacity_eq cap s : at_capacity cap s = (0 <? cap) && (cap <=? length (cache s)).
+Proof. reflexivity. Qed.
+Lemma tags_guard_eq t : tags_guard t = negb (is_nil t).
+Proof. destruct t; reflexivity. Qed.
+Lemma clamp_cap_eq z : clamp_cap z = Z.to_nat z.
+Proof.
+  unfold clamp_cap, cmp_z, cache_clamp_cmp, cache_clamp_lit, cache_clamp_value.
+  destruct (Z.ltb_spec z 0); lia.
+Qed.
+Lemma trim_count_eq n s : trim_count n s = if 0 <? n then length (cache s) - n else 0.
+Proof.
+  unfold trim_count, cmp_nat, countdown_iters, cache_trim_guard_cmp, cache_trim_guard_lit,
+    cache_trim_loop_cmp, cache_trim_loop_lit.
+  destruct (0 <? n); [lia | reflexivity].
+Qed.
+(** the statement shapes the model is written after (each is explained in Gen/Consts.v) *)
+Lemma code_shape_as_modelled :
+  cache_tag_append_if_missing = true /\ cache_tag_writeback_inside_guard = true /\
+  cache_evict_calls_remove = true /\ cache_store_then_index = true /\
+  cache_remove_drops_every_mention = true /\ cache_remove_deletes_hash = true /\
+  cache_replace_shape = [1; 2; 3; 4] /\ cache_add_shape = [1; 2; 3] /\
+  cache_remove_api_shape = true /\ cache_remove_managed_shape = true /\ cache_exact_lookup_shape = true /\
+  cache_allmatching_shape = true /\ cache_label_sep_char = c_dot /\
+  cache_setoptions_atomic = true /\ cache_trim_calls_remove = true /\
+  cache_store_guards_add = [true; false] /\ cache_store_guards_handshake = [true] /\
+  cache_store_guards_ocsp = [true] /\ cache_store_guards_ari = [true; true] /\
+  cache_map_store_sites = 6 /\ cache_map_delete_sites = 1.
+Proof. repeat split; reflexivity. Qed.
 
 (** ---- views of the index after the two loops ---- *)
 Lemma idx_of_adelete n n' ix : idx_of (adelete n ix) n' = if str_eqb n n' then [] else idx_of ix n'.
@@ -16,7 +49,7 @@ Notation drop_hash hc := (filter (fun h => negb (str_eqb h hc))).
 Lemma idx_of_unindex hc ix a n :
   idx_of (unindex_name hc ix a) n = if str_eqb a n then drop_hash hc (idx_of ix a) else idx_of ix n.
 Proof.
-  unfold unindex_name. destruct (is_nil _) eqn:E.
+  unfold unindex_name. rewrite index_list_empty_eq. destruct (is_nil _) eqn:E.
   - apply is_nil_true in E. rewrite idx_of_adelete, E. reflexivity.
   - rewrite idx_of_ainsert. reflexivity.
 Qed.
@@ -37,7 +70,7 @@ Definition no_empty (ix : amap (list hash)) : Prop := forall n, alookup n ix <> 
 
 Lemma no_empty_unindex hc ix a : no_empty ix -> no_empty (unindex_name hc ix a).
 Proof.
-  intros H n. unfold unindex_name. destruct (is_nil _) eqn:E.
+  intros H n. unfold unindex_name. rewrite index_list_empty_eq. destruct (is_nil _) eqn:E.
   - rewrite alookup_adelete. destruct (str_eqb a n); [discriminate | apply H].
   - rewrite alookup_ainsert. destruct (str_eqb a n); [|apply H].
     intros Heq. injection Heq as Heq. rewrite Heq in E. discriminate.
@@ -71,7 +104,7 @@ Lemma nodup_keys_fold_unindex hc names (ix : amap (list hash)) :
   NoDup (akeys ix) -> NoDup (akeys (fold_left (unindex_name hc) names ix)).
 Proof.
   revert ix. induction names as [|a names IH]; intros ix H; cbn [fold_left]; [exact H|].
-  apply IH. unfold unindex_name. destruct (is_nil _); [apply NoDup_akeys_adelete | apply NoDup_akeys_ainsert]; exact H.
+  apply IH. unfold unindex_name. rewrite index_list_empty_eq. destruct (is_nil _); [apply NoDup_akeys_adelete | apply NoDup_akeys_ainsert]; exact H.
 Qed.
 Lemma nodup_keys_fold_index hc names (ix : amap (list hash)) :
   NoDup (akeys ix) -> NoDup (akeys (fold_left (index_name hc) names ix)).
@@ -253,12 +286,12 @@ Section Inv.
   Proof.
     intros HI Hwf. unfold add_cert.
     destruct (alookup (c_hash c) (cache s)) as [e|] eqn:E.
-    - destruct (is_nil (c_tags c)); [exact HI|].
+    - destruct (tags_guard (c_tags c)); [|exact HI].
       pose proof (inv_cert s HI _ _ E) as (He1 & He2 & _).
       eapply update_cached_inv; eauto.
     - destruct (at_capacity cap s) eqn:Ecap.
       + destruct (evict_inv v s HI) as (HI1 & Hlen & Hsub).
-        unfold at_capacity in Ecap. apply andb_true_iff in Ecap. destruct Ecap as [E0 E1].
+        rewrite at_capacity_eq in Ecap. apply andb_true_iff in Ecap. destruct Ecap as [E0 E1].
         apply Nat.ltb_lt in E0. apply Nat.leb_le in E1.
         apply insert_new_inv; try assumption.
         * destruct (amem (c_hash c) (cache (evict v s))) eqn:Em; [|reflexivity].
@@ -267,7 +300,7 @@ Section Inv.
           destruct (cache s); [cbn in E1; lia | discriminate].
       + apply insert_new_inv; try assumption.
         * apply amem_false_alookup. exact E.
-        * intros H0. unfold at_capacity in Ecap. apply andb_false_iff in Ecap.
+        * intros H0. rewrite at_capacity_eq in Ecap. apply andb_false_iff in Ecap.
           destruct Ecap as [E0|E1]; [apply Nat.ltb_ge in E0; lia | apply Nat.leb_gt in E1; lia].
   Qed.
 
@@ -277,9 +310,9 @@ Section Inv.
     apply IH, remove_cached_inv, HI.
   Qed.
 
-  Lemma write_back_inv s c : Inv s -> wf_copy c -> Inv (write_back c s).
+  Lemma write_back_whole_copy_inv s c : Inv s -> wf_copy c -> Inv (write_back_whole_copy c s).
   Proof.
-    intros HI Hc. unfold write_back. destruct (amem (c_hash c) (cache s)) eqn:E; [|exact HI].
+    intros HI Hc. unfold write_back_whole_copy. destruct (amem (c_hash c) (cache s)) eqn:E; [|exact HI].
     destruct Hc as [Hc|Hc]; [|rewrite Hc, (inv_not_mem_nil s HI) in E; discriminate].
     apply amem_alookup in E. destruct E as [e E]. eapply update_cached_inv; eauto.
   Qed.
@@ -288,6 +321,8 @@ Section Inv.
     intros HI. unfold set_ocsp_at. destruct (alookup (fst hv) (cache s)) as [e|] eqn:E; [|exact HI].
     pose proof (inv_cert s HI _ _ E) as (He1 & He2 & _). eapply update_cached_inv; eauto.
   Qed.
+  Lemma write_back_inv s c : Inv s -> wf_copy c -> Inv (write_back c s).
+  Proof. intros HI _. apply set_ocsp_at_inv, HI. Qed.
   Lemma set_ari_at_inv s h v : Inv s -> Inv (set_ari_at h v s).
   Proof.
     intros HI. unfold set_ari_at. destruct (alookup h (cache s)) as [e|] eqn:E; [|exact HI].
@@ -421,9 +456,9 @@ Theorem readd_merges_tags cap s c v e :
              (forall t, In t (c_tags e') <-> In t (c_tags e) \/ In t (c_tags c)) /\
              (NoDup (c_tags e) -> NoDup (c_tags e')).
 Proof.
-  intros E s'. subst s'. unfold add_cert. rewrite E.
+  intros E s'. subst s'. unfold add_cert. rewrite E, tags_guard_eq.
   assert (Hm : amem (c_hash c) (cache s) = true) by (apply amem_alookup; eauto).
-  destruct (c_tags c) as [|t0 ts] eqn:Et; cbn [is_nil].
+  destruct (c_tags c) as [|t0 ts] eqn:Et; cbn [is_nil negb].
   - repeat split; try reflexivity. exists e. split; [exact E|]. split; [destruct e; reflexivity|].
     split; [cbn; tauto | auto].
   - cbn [cache index]. split; [reflexivity|]. split; [apply length_ainsert_mem, Hm|].
@@ -431,4 +466,312 @@ Proof.
     + intros h Hne. rewrite alookup_ainsert, str_eqb_neq by congruence. reflexivity.
     + eexists. rewrite alookup_ainsert, str_eqb_refl. split; [reflexivity|]. cbn [set_tags c_tags].
       split; [reflexivity|]. split; [apply merge_tags_In | apply merge_tags_NoDup].
+Qed.
+
+(** ======== the capacity changes at run time (Cache.SetOptions) ======== *)
+
+(** the structural part of the invariant is [Inv names_of 0] (capacity 0 = unlimited: the
+    capacity clause is vacuous) *)
+Lemma inv_weaken names_of cap s : Inv names_of cap s -> Inv names_of 0 s.
+Proof. intros [H1 H2 H3 H4 H5 H6]. constructor; try assumption. lia. Qed.
+Lemma inv_strengthen names_of cap s :
+  Inv names_of 0 s -> (0 < cap -> length (cache s) <= cap) -> Inv names_of cap s.
+Proof. intros [H1 H2 H3 H4 H5 H6] Hc. constructor; assumption. Qed.
+
+(** unsyncedCacheCertificate preserves the structural invariant whatever the capacity is *)
+Lemma add_cert_sinv names_of cap s c v :
+  Inv names_of 0 s -> wf_cert names_of c -> Inv names_of 0 (add_cert cap c v s).
+Proof.
+  intros HI Hwf. unfold add_cert.
+  destruct (alookup (c_hash c) (cache s)) as [e|] eqn:E.
+  - destruct (tags_guard (c_tags c)); [|exact HI].
+    pose proof (inv_cert _ _ s HI _ _ E) as (He1 & He2 & _).
+    eapply update_cached_inv; eauto.
+  - assert (Hnew : forall s1, Inv names_of 0 s1 ->
+              (forall h, amem h (cache s1) = true -> amem h (cache s) = true) ->
+              Inv names_of 0 (St (ainsert (c_hash c) c (cache s1))
+                                 (fold_left (index_name (c_hash c)) (c_names c) (index s1)))).
+    { intros s1 HI1 Hsub. apply insert_new_inv; try assumption; [|lia].
+      destruct (amem (c_hash c) (cache s1)) eqn:Em; [|reflexivity].
+      apply Hsub in Em. apply amem_false_alookup in E. congruence. }
+    destruct (at_capacity cap s).
+    + destruct (evict_inv names_of 0 v s HI) as (HI1 & _ & Hsub). apply Hnew; assumption.
+    + apply Hnew; auto.
+Qed.
+
+(** F: every operation preserves the structural invariant, for EVERY capacity (in particular one
+    that is smaller than the current size) *)
+Theorem step_sinv names_of cap s o :
+  Inv names_of 0 s -> wf_op names_of o -> Inv names_of 0 (step cap s o).
+Proof.
+  intros HI Hwf. destruct o as [c v|c|old new v|hs|sj|c|upd|h v].
+  - apply add_cert_sinv; assumption.
+  - exact (step_inv names_of 0 s (ORemoveCert c) HI Hwf).
+  - destruct Hwf as [Ho Hn]. cbn [step]. unfold replace_cert. apply add_cert_sinv; [|assumption].
+    apply remove_copy_inv; assumption.
+  - exact (step_inv names_of 0 s (ORemoveHashes hs) HI Hwf).
+  - exact (step_inv names_of 0 s (ORemoveManaged sj) HI Hwf).
+  - exact (step_inv names_of 0 s (OWriteBack c) HI Hwf).
+  - exact (step_inv names_of 0 s (OSetOCSP upd) HI Hwf).
+  - exact (step_inv names_of 0 s (OSetARI h v) HI Hwf).
+Qed.
+
+(** sizes *)
+Lemma remove_cert_length c s : length (cache (remove_cert c s)) <= length (cache s).
+Proof. cbn [remove_cert cache]. apply length_adelete_le. Qed.
+Lemma remove_hashes_length hs : forall s, length (cache (remove_hashes hs s)) <= length (cache s).
+Proof.
+  unfold remove_hashes. induction hs as [|h hs IH]; intros s; cbn [fold_left]; [lia|].
+  etransitivity; [apply IH | apply remove_cert_length].
+Qed.
+Lemma set_ocsp_at_length hv s : length (cache (set_ocsp_at hv s)) = length (cache s).
+Proof.
+  unfold set_ocsp_at. destruct (alookup (fst hv) (cache s)) eqn:E; [|reflexivity].
+  cbn [cache]. apply length_ainsert_mem, amem_alookup. eauto.
+Qed.
+Lemma set_ari_at_length h v s : length (cache (set_ari_at h v s)) = length (cache s).
+Proof.
+  unfold set_ari_at. destruct (alookup h (cache s)) eqn:E; [|reflexivity].
+  cbn [cache]. apply length_ainsert_mem, amem_alookup. eauto.
+Qed.
+
+Lemma add_cert_size names_of cap s c v :
+  Inv names_of 0 s -> 0 < cap ->
+  length (cache (add_cert cap c v s)) <= Nat.max cap (length (cache s)).
+Proof.
+  intros HI Hcap. unfold add_cert.
+  destruct (alookup (c_hash c) (cache s)) as [e|] eqn:E.
+  - destruct (tags_guard (c_tags c)); [|lia]. cbn [cache].
+    rewrite length_ainsert_mem by (apply amem_alookup; eauto). lia.
+  - apply amem_false_alookup in E.
+    destruct (at_capacity cap s) eqn:Ecap; rewrite at_capacity_eq in Ecap.
+    + apply andb_true_iff in Ecap. destruct Ecap as [_ E1]. apply Nat.leb_le in E1.
+      destruct (evict_inv names_of 0 v s HI) as (_ & Hlen & Hsub). cbn [cache].
+      rewrite length_ainsert_new.
+      * rewrite Hlen; [lia|]. destruct (cache s); [cbn in E1; lia | discriminate].
+      * destruct (amem (c_hash c) (cache (evict v s))) eqn:Em; [|reflexivity].
+        apply Hsub in Em. congruence.
+    + cbn [cache]. rewrite length_ainsert_new by exact E.
+      apply andb_false_iff in Ecap. destruct Ecap as [E0|E1];
+        [apply Nat.ltb_ge in E0; lia | apply Nat.leb_gt in E1; lia].
+Qed.
+
+(** F: with a positive capacity an operation never makes the cache larger than
+    max(capacity, size before): a cache that is over its capacity does not grow *)
+Theorem step_size_bound names_of cap s o :
+  Inv names_of 0 s -> wf_op names_of o -> 0 < cap ->
+  length (cache (step cap s o)) <= Nat.max cap (length (cache s)).
+Proof.
+  intros HI Hwf Hcap. destruct o as [c v|c|old new v|hs|sj|c|upd|h v]; cbn [step].
+  - eapply add_cert_size; eassumption.
+  - pose proof (remove_cert_length c s). lia.
+  - destruct Hwf as [Ho Hn]. unfold replace_cert.
+    assert (HI1 : Inv names_of 0 (remove_cert old s)) by (apply remove_copy_inv; assumption).
+    pose proof (add_cert_size names_of cap _ new v HI1 Hcap).
+    pose proof (remove_cert_length old s). lia.
+  - pose proof (remove_hashes_length hs s). lia.
+  - unfold remove_managed. pose proof (remove_hashes_length (managed_queue s sj) s). lia.
+  - unfold write_back. rewrite set_ocsp_at_length. lia.
+  - assert (H : forall s, length (cache (fold_left (fun s hv => set_ocsp_at hv s) upd s)) = length (cache s)).
+    { clear. induction upd as [|hv upd IH]; intros s0; cbn [fold_left]; [reflexivity|].
+      rewrite IH. apply set_ocsp_at_length. }
+    rewrite H. lia.
+  - rewrite set_ari_at_length. lia.
+Qed.
+
+(** evictRandomCertificate *)
+Lemma evict_lookup v s h c :
+  alookup h (cache (evict v s)) = Some c -> alookup h (cache s) = Some c.
+Proof.
+  assert (Hrm : forall vc, alookup h (cache (remove_cert vc s)) = Some c -> alookup h (cache s) = Some c).
+  { intros vc. cbn [remove_cert cache]. rewrite alookup_adelete.
+    destruct (str_eqb (c_hash vc) h); [discriminate | auto]. }
+  unfold evict.
+  destruct (match v with Some v0 => alookup v0 (cache s) | None => None end) as [vc|]; [apply Hrm|].
+  intros H. destruct (cache s) as [|[k vc] r] in H; [exact H | eapply Hrm; exact H].
+Qed.
+Lemma evict_length names_of v s :
+  Inv names_of 0 s -> length (cache (evict v s)) = length (cache s) - 1.
+Proof.
+  intros HI. destruct (evict_inv names_of 0 v s HI) as (_ & Hlen & _).
+  destruct (cache s) as [|p r] eqn:Ec.
+  - unfold evict. rewrite Ec. destruct v; cbn; rewrite Ec; reflexivity.
+  - assert (Hne : p :: r <> []) by discriminate. apply Hlen in Hne. cbn [length] in *. lia.
+Qed.
+Lemma evict_n_inv names_of k : forall vs s,
+  Inv names_of 0 s ->
+  Inv names_of 0 (evict_n k vs s) /\
+  length (cache (evict_n k vs s)) = length (cache s) - k /\
+  (forall h c, alookup h (cache (evict_n k vs s)) = Some c -> alookup h (cache s) = Some c).
+Proof.
+  induction k as [|k IH]; intros vs s HI; cbn [evict_n].
+  - split; [exact HI|]. split; [lia | auto].
+  - assert (Hone : forall v r, Inv names_of 0 (evict_n k r (evict v s)) /\
+              length (cache (evict_n k r (evict v s))) = length (cache s) - S k /\
+              (forall h c, alookup h (cache (evict_n k r (evict v s))) = Some c -> alookup h (cache s) = Some c)).
+    { intros v r. destruct (evict_inv names_of 0 v s HI) as (HI1 & _ & _).
+      destruct (IH r _ HI1) as (H1 & H2 & H3). split; [exact H1|]. split.
+      - rewrite H2, (evict_length names_of v s HI). lia.
+      - intros h c Hc. apply H3 in Hc. eapply evict_lookup; eauto. }
+    destruct vs as [|v r]; apply Hone.
+Qed.
+
+Definition DInv (names_of : hash -> list name) (d : dstate) : Prop := Inv names_of (d_cap d) (d_st d).
+Definition wf_dop (names_of : hash -> list name) (o : dop) : Prop :=
+  match o with DOp o => wf_op names_of o | _ => True end.
+
+(** SetOptions (fixed): the new capacity holds at once; nothing but evictions happens *)
+Theorem set_capacity_spec names_of z vs d :
+  DInv names_of d ->
+  let d' := set_capacity z vs d in
+  DInv names_of d' /\ d_cap d' = Z.to_nat z /\
+  length (cache (d_st d')) =
+    (if 0 <? Z.to_nat z then Nat.min (length (cache (d_st d))) (Z.to_nat z) else length (cache (d_st d))) /\
+  (forall h c, alookup h (cache (d_st d')) = Some c -> alookup h (cache (d_st d)) = Some c).
+Proof.
+  intros HI d'. subst d'. unfold set_capacity, DInv. cbn [d_cap d_st].
+  rewrite clamp_cap_eq, trim_count_eq.
+  destruct (evict_n_inv names_of (if 0 <? Z.to_nat z then length (cache (d_st d)) - Z.to_nat z else 0)
+              vs (d_st d) (inv_weaken _ _ _ HI)) as (H1 & H2 & H3).
+  assert (Hlen : length (cache (evict_n (if 0 <? Z.to_nat z then length (cache (d_st d)) - Z.to_nat z else 0) vs (d_st d))) =
+                 (if 0 <? Z.to_nat z then Nat.min (length (cache (d_st d))) (Z.to_nat z) else length (cache (d_st d)))).
+  { rewrite H2. destruct (0 <? Z.to_nat z); lia. }
+  split; [|split; [reflexivity | split; [exact Hlen | exact H3]]].
+  apply inv_strengthen; [exact H1|]. intros Hpos. rewrite Hlen.
+  apply Nat.ltb_lt in Hpos. rewrite Hpos. lia.
+Qed.
+
+(** F: the full invariant, with the capacity configured at that moment, is preserved by every
+    operation including SetOptions *)
+Theorem dstep_inv names_of d o : DInv names_of d -> wf_dop names_of o -> DInv names_of (dstep d o).
+Proof.
+  intros HI Hwf. destruct o as [o|z vs|q| |r]; cbn [dstep]; try exact HI.
+  - unfold DInv. cbn [d_cap d_st]. apply step_inv; assumption.
+  - apply (set_capacity_spec names_of z vs d HI).
+Qed.
+Theorem drun_inv names_of ops : forall d,
+  DInv names_of d -> Forall (wf_dop names_of) ops -> DInv names_of (drun d ops).
+Proof.
+  unfold drun. induction ops as [|o ops IH]; intros d HI Hwf; cbn [fold_left]; [exact HI|].
+  inversion Hwf as [|? ? Ho Hops]; subst. apply IH; [apply dstep_inv; assumption | assumption].
+Qed.
+Lemma dinv_init names_of cap : DInv names_of (dinit cap).
+Proof. apply inv_init. Qed.
+
+(** ---- SetOptions as it was before the fix ---- *)
+(** the capacity is not lowered below the current size by this operation *)
+Definition lowering_ok (d : dstate) (o : dop) : Prop :=
+  match o with
+  | DSetCap z _ => 0 < Z.to_nat z -> length (cache (d_st d)) <= Z.to_nat z
+  | _ => True
+  end.
+Theorem dstep_untrimmed_inv names_of d o :
+  DInv names_of d -> wf_dop names_of o -> lowering_ok d o -> DInv names_of (dstep_untrimmed d o).
+Proof.
+  intros HI Hwf Hlow. destruct o as [o|z vs|q| |r]; cbn [dstep_untrimmed dstep]; try exact HI.
+  - unfold DInv. cbn [d_cap d_st]. apply step_inv; assumption.
+  - unfold set_capacity_untrimmed, DInv. cbn [d_cap d_st]. rewrite clamp_cap_eq.
+    apply inv_strengthen; [apply (inv_weaken _ _ _ HI) | exact Hlow].
+Qed.
+Fixpoint never_lowered_below_size (d : dstate) (ops : list dop) : Prop :=
+  match ops with
+  | [] => True
+  | o :: r => lowering_ok d o /\ never_lowered_below_size (dstep_untrimmed d o) r
+  end.
+Theorem drun_untrimmed_inv names_of ops : forall d,
+  DInv names_of d -> Forall (wf_dop names_of) ops -> never_lowered_below_size d ops ->
+  DInv names_of (drun_untrimmed d ops).
+Proof.
+  unfold drun_untrimmed. induction ops as [|o ops IH]; intros d HI Hwf Hlow; cbn [fold_left]; [exact HI|].
+  inversion Hwf as [|? ? Ho Hops]; subst. destruct Hlow as [Hl Hr].
+  apply IH; [apply dstep_untrimmed_inv; assumption | assumption | assumption].
+Qed.
+(** ... and whatever is done to the capacity, the structural invariant survives *)
+Theorem drun_untrimmed_sinv names_of ops : forall d,
+  Inv names_of 0 (d_st d) -> Forall (wf_dop names_of) ops -> Inv names_of 0 (d_st (drun_untrimmed d ops)).
+Proof.
+  unfold drun_untrimmed. induction ops as [|o ops IH]; intros d HI Hwf; cbn [fold_left]; [exact HI|].
+  inversion Hwf as [|? ? Ho Hops]; subst. apply IH; [|assumption].
+  destruct o as [o|z vs|q| |r]; cbn [dstep_untrimmed dstep set_capacity_untrimmed d_st]; try exact HI.
+  apply step_sinv; assumption.
+Qed.
+
+(** ======== what a write-back can change ======== *)
+(** the three write-backs re-read the entry under the lock and change ONE field of it; the key
+    sets, the index, every other entry, and the other fields of the entry stay as they are *)
+Definition same_but (f : cert -> cert) (h : hash) (s s' : state) : Prop :=
+  index s' = index s /\ akeys (cache s') = akeys (cache s) /\
+  (forall h', h' <> h -> alookup h' (cache s') = alookup h' (cache s)) /\
+  match alookup h (cache s) with
+  | Some e => alookup h (cache s') = Some (f e)
+  | None => s' = s
+  end.
+Lemma update_entry_same_but f h s e :
+  alookup h (cache s) = Some e -> same_but f h s (St (ainsert h (f e) (cache s)) (index s)).
+Proof.
+  intros E. unfold same_but. cbn [cache index]. rewrite E.
+  split; [reflexivity|]. split; [apply akeys_ainsert_mem, amem_alookup; eauto|]. split.
+  - intros h' Hne. rewrite alookup_ainsert, str_eqb_neq by congruence. reflexivity.
+  - rewrite alookup_ainsert, str_eqb_refl. reflexivity.
+Qed.
+Theorem set_ocsp_at_effect hv s : same_but (fun e => set_ocsp e (snd hv)) (fst hv) s (set_ocsp_at hv s).
+Proof.
+  unfold set_ocsp_at. destruct (alookup (fst hv) (cache s)) as [e|] eqn:E.
+  - apply (update_entry_same_but (fun e => set_ocsp e (snd hv)) (fst hv) s e E).
+  - unfold same_but. rewrite E. auto.
+Qed.
+Theorem set_ari_at_effect h v s : same_but (fun e => set_ari e v) h s (set_ari_at h v s).
+Proof.
+  unfold set_ari_at. destruct (alookup h (cache s)) as [e|] eqn:E.
+  - apply (update_entry_same_but (fun e => set_ari e v) h s e E).
+  - unfold same_but. rewrite E. auto.
+Qed.
+(** the handshake's write-back of a copy [c], however stale: only the staple of the entry under
+    c's own hash can change (tags merged since the copy was taken stay) *)
+Theorem write_back_effect c s : same_but (fun e => set_ocsp e (c_ocsp c)) (c_hash c) s (write_back c s).
+Proof. apply (set_ocsp_at_effect (c_hash c, c_ocsp c)). Qed.
+
+(** ======== maintenance scans ======== *)
+(** the ConfigGetter is shown exactly the cached certificates the pass considers, as they are
+    cached at the time of the scan (with all the tags merged so far) *)
+Theorem scan_view_exact names_of cap s r c :
+  Inv names_of cap s ->
+  (In c (scan_view r s) <-> alookup (c_hash c) (cache s) = Some c /\ scan_sel r c = true).
+Proof.
+  intros HI. unfold scan_view. rewrite filter_In, in_map_iff. split.
+  - intros [([k c'] & Heq & Hin) Hsel]. cbn in Heq. subst c'. split; [|exact Hsel].
+    apply In_alookup in Hin; [|apply (inv_nodup _ _ s HI)].
+    destruct (inv_cert _ _ s HI k c Hin) as (-> & _). exact Hin.
+  - intros [Hc Hsel]. split; [|exact Hsel]. exists (c_hash c, c). split; [reflexivity|].
+    clear Hsel. revert Hc. generalize (c_hash c). intros k. induction (cache s) as [|[k' v] m IH]; cbn; [discriminate|].
+    destruct (str_eqb_spec k k') as [->|Hne]; [intros H; injection H as ->; auto | auto].
+Qed.
+
+(** ======== adding leaves the certificate cached; nothing else appears ======== *)
+Lemma add_cert_cached cap c v s : amem (c_hash c) (cache (add_cert cap c v s)) = true.
+Proof.
+  unfold add_cert. destruct (alookup (c_hash c) (cache s)) as [e|] eqn:E.
+  - destruct (tags_guard (c_tags c)); cbn [cache].
+    + rewrite amem_ainsert, str_eqb_refl. reflexivity.
+    + apply amem_alookup. eauto.
+  - cbn [cache]. rewrite amem_ainsert, str_eqb_refl. reflexivity.
+Qed.
+Lemma evict_shrinks v s h : amem h (cache (evict v s)) = true -> amem h (cache s) = true.
+Proof.
+  intros H. apply amem_alookup in H. destruct H as [c Hc]. apply evict_lookup in Hc.
+  apply amem_alookup. eauto.
+Qed.
+Lemma add_cert_only_adds cap c v s h :
+  amem h (cache (add_cert cap c v s)) = true -> h = c_hash c \/ amem h (cache s) = true.
+Proof.
+  unfold add_cert. destruct (alookup (c_hash c) (cache s)) as [e|] eqn:E.
+  - destruct (tags_guard (c_tags c)); cbn [cache]; [|auto].
+    rewrite amem_ainsert. destruct (str_eqb_spec (c_hash c) h); auto.
+  - cbn [cache]. rewrite amem_ainsert. destruct (str_eqb_spec (c_hash c) h) as [->|Hne]; [auto|].
+    cbn [orb]. intros H. right. destruct (at_capacity cap s); [eapply evict_shrinks; eauto | exact H].
+Qed.
+Lemma nodup_b_true l : nodup_b l = true -> NoDup l.
+Proof.
+  induction l as [|x l IH]; cbn; [constructor|]. intros H. apply andb_true_iff in H. destruct H as [H1 H2].
+  constructor; [apply mem_str_false, negb_true_iff, H1 | auto].
 Qed.
